@@ -498,3 +498,63 @@ func TestC03_Regression(t *testing.T) {
 	}
 	_ = strings.Join
 }
+
+// TestC03_Quota: the same bound for volume quotas: long periods, averages and bursts of
+// 10^5..4*10^9 units and requests weighing thousands to millions of units (bytes of an upload).
+func TestC03_Quota(t *testing.T) {
+	rapid.Check(t, func(t *rapid.T) {
+		period := rapid.SampledFrom([]time.Duration{time.Hour, 24 * time.Hour, 30 * 24 * time.Hour}).Draw(t, "period")
+		avg := rapid.SampledFrom([]int64{100000, 3600000, 100000000, 3600000000, 4000000000}).Draw(t, "average")
+		burst := avg
+		if rapid.Bool().Draw(t, "smallerBurst") {
+			burst = avg / int64(rapid.IntRange(2, 10).Draw(t, "burstDiv"))
+		}
+		rates := []gen.Rate{{Period: period, Average: avg, Burst: burst}}
+		rs, err := gen.RateSet(rates)
+		if err != nil {
+			t.Fatal(err)
+		}
+		clock.Freeze(epoch)
+		defer clock.Unfreeze()
+		served := 0
+		tl, err := ratelimit.New(http.HandlerFunc(func(w http.ResponseWriter, r *http.Request) { served++ }), gen.HeaderExtractor, rs)
+		if err != nil {
+			t.Fatal(err)
+		}
+		do := func(n int64) bool {
+			req := httptest.NewRequest("POST", "http://x/upload", nil)
+			req.Header.Set("X-Src", "uploader")
+			req.Header.Set("X-Amt", strconv.FormatInt(n, 10))
+			before := served
+			tl.ServeHTTP(httptest.NewRecorder(), req)
+			return served == before+1
+		}
+		var events []adm
+		var now time.Duration
+		first := burst - rapid.Int64Range(0, burst/4).Draw(t, "keep")
+		if do(first) {
+			events = append(events, adm{now, first})
+		}
+		size := rapid.SampledFrom([]int64{1000, 65536, 1000000, 3000000, 5000000}).Draw(t, "uploadSize")
+		if size > burst {
+			size = burst
+		}
+		gap := rapid.SampledFrom([]time.Duration{time.Millisecond, 100 * time.Millisecond, time.Second, 7 * time.Second}).Draw(t, "gap")
+		n := rapid.IntRange(20, 600).Draw(t, "uploads")
+		for i := 0; i < n; i++ {
+			clock.Advance(gap)
+			now += gap
+			amt := size
+			if rapid.IntRange(0, 3).Draw(t, "vary") == 0 {
+				amt = rapid.Int64Range(1, size).Draw(t, "amt")
+			}
+			if do(amt) {
+				events = append(events, adm{now, amt})
+			}
+		}
+		if ok, msg := checkBound(events, rates); !ok {
+			t.Fatalf("uploads of up to %d units every %v against %v: %s", size, gap, rates[0], msg)
+		}
+		vstat.Case(fmt.Sprintf("quota|%v|%d|%v|%d|%d", rates, size, gap, n, first), len(events) > 1, []string{"volume-quota"}, map[string]any{"rate": fmt.Sprint(rates[0]), "upload": size, "gap": gap.String(), "uploads": n, "admitted": len(events)})
+	})
+}
